@@ -63,7 +63,14 @@ fn to_word_val(_bits: u32, x: f64) -> f64 {
 /// refract case: i[N] n[N] eta. Generic unit pairs, and pairs constructed at k = 1 - eta^2 (1 - (n.i)^2) = 0 +- 10^-j.
 pub fn refract(n: usize, bits: u32) -> BoxedStrategy<Vec<u64>> {
     let jmax = if bits == 32 { 9.0 } else { 17.0 };
-    let generic = (unit(n), unit(n), (0.2f64.ln()..5.0f64.ln()).prop_map(|l| l.exp()));
+    // eta: log-uniform, plus exact values a special case would be keyed on (1.0 and its neighbours, common ratios)
+    let eps = if bits == 32 { f32::EPSILON as f64 } else { f64::EPSILON };
+    let eta = prop_oneof![
+        6 => (0.2f64.ln()..5.0f64.ln()).prop_map(|l| l.exp()),
+        2 => Just(1.0f64),
+        2 => proptest::sample::select(vec![1.0 - eps, 1.0 + eps, 0.5, 0.75, 1.25, 1.5, 2.0, 1.0 / 1.33, 1.33]),
+    ];
+    let generic = (unit(n), unit(n), eta);
     let boundary = (unit(n), pvec(-1.0f64..1.0, n), 1.0005f64..5.0, prop_oneof![1 => Just(-1.0f64), 8 => 1.0f64..jmax], any::<bool>(), any::<bool>()).prop_map(
         move |(nv, r, eta, j, neg, front)| {
             let tv = orth(&nv, &r);
